@@ -20,6 +20,7 @@ Three parts:
 The Z <-> symbol mapping used as key comes from the list below, not from the
 table under test.
 """
+from .. import subtable
 import copy
 import json
 import os
@@ -124,9 +125,9 @@ def table(cfg):
         _touch_public()
         T = periodictable.elements
     elif cfg == "bare":
-        T = core.PeriodicTable("c08-bare")
+        T = subtable.new("c08-bare")
     else:
-        T = core.PeriodicTable("c08-" + cfg)
+        T = subtable.new("c08-" + cfg)
         mass.init(T)
         density.init(T)
         if cfg == "private-b":
@@ -390,7 +391,7 @@ def growth_history(variant, report, case_fn=None):
     from periodictable import core, mass, density
     _ENV["growth-n"] = _ENV.get("growth-n", 0) + 1
     name = "c08-growth-%s-%d" % (variant, _ENV["growth-n"])
-    T = core.PeriodicTable(name)
+    T = subtable.new(name)
 
     def stage(label, Zs=None):
         for Z in (range(119) if Zs is None else Zs):
@@ -454,7 +455,7 @@ DROP_FORMULAS = ["H2O", "D2O", "Fe[56]{2+}O{2-}", "D{+}Cl{-}", "T2O[18]", "Na{+}
 
 def _fresh_private(name):
     from periodictable import core, mass, density
-    T = core.PeriodicTable(name)
+    T = subtable.new(name)
     mass.init(T)
     density.init(T)
     return T
@@ -1005,9 +1006,9 @@ class _Machine(object):
                 self.tables[name] = periodictable.elements
             elif name == "T3":
                 # bare table: isotopes arrive later, through "init" and "grow" operations
-                self.tables[name] = core.PeriodicTable("c08-" + name)
+                self.tables[name] = subtable.new("c08-" + name)
             else:
-                t = core.PeriodicTable("c08-" + name)
+                t = subtable.new("c08-" + name)
                 mass.init(t)
                 density.init(t)
                 self.tables[name] = t
